@@ -9,7 +9,7 @@ import vlib
 
 # ---- tier constants -------------------------------------------------------------------------
 K_MODEL = {"quick": dict(MaxN=3, Coords="{0, 1, 2}", Dim=2, NMeth=5), "thorough": dict(MaxN=4, Coords="{0, 1, 2}", Dim=2, NMeth=5)}
-K_GEN = {"quick": dict(MaxN2=4, MaxN1=4, MaxN3=3, Stride=3), "thorough": dict(MaxN2=5, MaxN1=5, MaxN3=4, Stride=2)}
+K_GEN = {"quick": dict(MaxN2=4, MaxN1=4, MaxN3=3, Stride=3), "thorough": dict(MaxN2=5, MaxN1=5, MaxN3=4, Stride=1)}
 K_INVS = ["InvSym", "InvGaussDiag", "InvGaussRange", "InvGaussMono", "InvGaussPSD", "InvLinearPSD", "InvPolyLinear",
           "InvPatFull", "InvPatMin", "InvPatUnique", "InvPatOneSided", "InvPatKPlus", "InvViews"]
 K_TRACE_CONST = dict(MaxN=0, Coords="{}", Dim=0, NMeth=0)
@@ -129,7 +129,7 @@ def run(ctx):
     ctx.exhaustive = False      # the largest sizes are hash-sampled; the complete sub-domains are stated in ctx.extra
     if not ctx.quick:
         kcases += random_kernel_cases(ctx, 600)
-        hcases += random_hier_cases(ctx, 500)
+        hcases += random_hier_cases(ctx, 800)
     cases = kcases + hcases
     vlib.number(cases)
     ctx.cases = len(cases)
@@ -145,7 +145,7 @@ def run(ctx):
     vlib.validate_with_findings(ctx, "Trace_HierClust", htr, constants=H_TRACE_CONST, chunk=3000, tag="Trace_HierClust")
     ctx.extra = {"complete_subdomain": ("kernels: every point multiset with n <= 3 x every k; clusterings: every dissimilarity matrix with n <= 3 x {single, complete, average, weighted}"
                                         if ctx.quick else
-                                        "kernels: every point multiset with n <= 4 x every k; clusterings: every dissimilarity matrix with n <= 4 "
+                                        "kernels: every point multiset with n <= 5 ({0,1,2}^2, {-2..2}) resp. n <= 4 ({0,1}^3) x every k; clusterings: every dissimilarity matrix with n <= 4 "
                                         "x {single, complete, average, weighted}"),
                  "kernel_cases": len(ktr), "hier_cases": len(htr),
                  "hier_events": sum(len(t["ev"]) for t in htr), "kernel_events": sum(len(t["ev"]) for t in ktr)}
